@@ -246,16 +246,21 @@ BRACED = ["\\mathbb{R}", "\\mathbb{E}", "\\mathcal{L}", "\\mathcal{N}", "\\mathf
           "\\textbf{x}", "\\mathcal{H}", "\\frac{a}{b}", "\\mathbb{N}", "\\unknowncmd{y}", "\\mathcal{Z}"]
 
 
-def add_braced(recipes: list, salt: int = 0) -> int:
+BRACED_FAMILIES = [[b for b in BRACED if b.startswith(f)] for f in ("\\mathbb{", "\\mathcal{")]
+
+
+def add_braced(recipes: list, salt: int = 0, family: bool = False) -> int:
     """Braced commands (\\name{arg}) appended to texts that already bear a command: members of the same command
     family across documents, some known to the symbol table and some not.  No draws: chosen by a hash of the text."""
     n = 0
+    # family mode: every braced command of the plan has the same name and only the argument differs between texts
+    pool = BRACED_FAMILIES[salt % len(BRACED_FAMILIES)] if family else BRACED
 
     def fix(x):
         nonlocal n
         if isinstance(x, str) and "\\" in x and "{" not in x:
             n += 1
-            return x + " " + BRACED[_h32(x, salt) % len(BRACED)]  # equal texts stay equal within a plan
+            return x + " " + pool[_h32(x, salt) % len(pool)]  # equal texts stay equal within a plan
         if isinstance(x, list):
             return [fix(y) for y in x]
         return x
